@@ -12,7 +12,7 @@ done
 /venv/bin/python - <<'PY'
 import sys
 sys.path.insert(0, "harness")
-import tlc, puml, fragment, jobdef, pumlsyn, learner, learn_engine, common, findings, store, storegen, seqr, gates, fieldmap, pipeline  # noqa
+import tlc, puml, fragment, jobdef, pumlsyn, learner, learn_engine, common, findings, store, storegen, seqr, gates, fieldmap, pipeline, storecli  # noqa
 from checks import c01, c02, c03, c04, c05, c06, c07, c08, c13, c14, c09, c10, c11, c12, c15, c16  # noqa
 print("harness imports ok")
 PY
